@@ -94,6 +94,12 @@ def real(case):
             ts.propagate_MCMC(decoy, case['lag'], 2)
         except Exception:  # noqa
             pass
+        # … and a LUMPED object with exactly these macrostate trajectories (finer microstates underneath): equal as a state trajectory, another model
+        try:
+            micro = [np.array([2 * int(x) + (i % 2) for i, x in enumerate(t)], dtype=np.int64) for t in trajs]
+            ts.propagate_MCMC(mh.LumpedStateTraj([t.copy() for t in trajs], micro), case['lag'], 2)
+        except Exception:  # noqa
+            pass
     np.random.seed(case['useed'] & 0x7fffffff)
     if case['op'] == 'det_paths':
         orig = ts._propagate_MCMC
